@@ -210,7 +210,7 @@ func checkC02(c *Ctx, r *Report) {
 	{
 		found := map[string]*ssa.Function{}
 		for _, fn := range c.transcriptFuncs() {
-			if kind, _, shape := classifyTranscript(fn); kind != "" && shape == "" {
+			if kind, _, shape := classifyTranscript(c, fn); kind != "" && shape == "" {
 				found[kind] = fn
 			}
 		}
@@ -282,7 +282,7 @@ func checkC02(c *Ctx, r *Report) {
 func classifyTranscript0(c *Ctx, fn *ssa.Function) (string, string, string) {
 	for _, t := range c.transcriptFuncs() {
 		if t == fn {
-			return classifyTranscript(fn)
+			return classifyTranscript(c, fn)
 		}
 	}
 	return "", "", "not a transcript function"
